@@ -556,7 +556,7 @@ def bld_pred(which):
                     finished.add(cid)      # an abortive client: its service call ends by itself
                 if op[0] == "E":
                     backoff = True
-            elif op[0] == "f":
+            elif op[0] in "fF":
                 finished.add(int(op[1:]))
             elif op == "P":
                 paused = True
@@ -607,6 +607,44 @@ def bld_pred(which):
     return pred
 
 
+def bld_probe(case, impl_trace, model_trace):
+    """continuation of an end-to-end scenario on which implementation and model disagree, built from the IMPLEMENTATION's trace:
+    every client whose service call the implementation reported is closed (F<cid>: lenient finish), the server is resumed if the
+    scenario left it paused, a back-off is waited out, and one fresh client connects to every listener.  With capacity free and the
+    server running each of them must then be served (clause C03/C05 of bld_pred) by the right service (C01), within the limit (C02)."""
+    W, L, tok_call, ops = bld_parse_case(case)
+    steps = bld_parse_trace(impl_trace)
+    if not steps or not ops or ops[-1][0] in "GH" or any(o[0] in "KJ" for o in ops):
+        return []
+    served, closed, paused, cid = set(), set(), False, 0
+    for o in ops:
+        if o[0] in "cEA":
+            cid += 1
+            if o[0] == "A":
+                closed.add(cid)
+        elif o[0] in "fF":
+            closed.add(int(o[1:]))
+        elif o == "P":
+            paused = True
+        elif o == "R":
+            paused = False
+        elif o[0] == "Q":
+            paused = o[-1] == "P"
+    for (_, sv, _, _) in steps:
+        served.update(c for (c, _, _) in sv)
+    cont = ["F%d" % c for c in range(1, cid + 1) if c not in closed]
+    if paused:
+        cont.append("R")
+    if any(o[0] == "E" for o in ops):
+        cont.append("+600")
+    cont += ["c%d" % t for t in range(len(tok_call))]
+    head = case.split(";exp=")[0]
+    try:
+        return bld_annotate([head + " " + " ".join(cont)])
+    except Exception:  # noqa: BLE001
+        return []
+
+
 def bld_stream(ctx, which, flags_choices, n_quick, n_thorough, **kw):
     n = n_quick if ctx.tier == "quick" else n_thorough
     cases = bld_cases(ctx, n, flags_choices, **kw)
@@ -634,6 +672,7 @@ def bld_stream(ctx, which, flags_choices, n_quick, n_thorough, **kw):
                            "listeners via listen/bind/bind_uds/listen_uds, actix System and plain Tokio runtimes, pause/resume, real EMFILE via "
                            "RLIMIT_NOFILE); after each op the set of service calls that started (connection id, listener's service, worker index) and "
                            "the in-progress count per worker are compared with the settled model (extracted Srv.v + Builder.v)" % n)
+    st.probe = bld_probe
     st.per_shard = 2   # a scenario takes about a second of real time
     st.prepare = lambda c: bld_annotate([c])[0]
     def stats(cases, impl, model):
